@@ -233,6 +233,7 @@ def check_property(pid, tier, base_seed, out=sys.stdout, write_evidence=True, ex
         if st == 'violation': viol.append((fam, b, sd, r)); f['violations'] += 1
         elif st != 'ok': infra.append((fam, b, sd, r))
         for k in ('steps', 'switches', 'sim_ms', 'ops', 'faults_fired', 'spurious', 'yields', 'lock_blocks'): agg[k] += r.get(k, 0)
+        if 'sb_buffered' in r: agg['sb_runs'] = agg.get('sb_runs', 0) + 1; agg['sb_buffered'] = agg.get('sb_buffered', 0) + r.get('sb_buffered', 0); agg['sb_overtaken'] = agg.get('sb_overtaken', 0) + r.get('sb_overtaken', 0)
         agg['threads_max'] = max(agg['threads_max'], r.get('threads', 0))
         merge_counts(agg['probes'], r.get('probes')); merge_counts(agg['os_calls'], r.get('os_calls')); merge_counts(agg['os_refused'], r.get('os_refused'))
         sig = (r.get('api_hash'), r.get('sched_sig'), r.get('event_hash'))
@@ -313,7 +314,7 @@ def check_property(pid, tier, base_seed, out=sys.stdout, write_evidence=True, ex
               'coverage': {'evaluations': len(results), 'distinct_nontrivial': len(distinct_nt), 'rule': spec['rule'], 'samples': samples,
                            'distinct_executions': len(distinct), 'runs_per_hour': int(len(results) / max(wall, 1e-3) * 3600), 'simulated_time_ms': agg['sim_ms'],
                            'scheduling_points': agg['steps'], 'context_switches': agg['switches'], 'yields': agg['yields'], 'lock_blocks': agg['lock_blocks'], 'operations': agg['ops'], 'max_threads': agg['threads_max'],
-                           'fault_kinds_fired': dict(agg['os_refused'], spurious_cas=agg['spurious'], injected_os_faults=agg['faults_fired']),
+                           'fault_kinds_fired': dict(agg['os_refused'], spurious_cas=agg['spurious'], injected_os_faults=agg['faults_fired'], store_buffer_runs=agg.get('sb_runs', 0), stores_buffered=agg.get('sb_buffered', 0), loads_that_overtook_a_buffered_store=agg.get('sb_overtaken', 0)),
                            'os_calls': agg['os_calls'], 'probes': agg['probes'], 'unreached_probes': unreached,
                            'by_family': agg['by_family'], 'by_build': agg['by_build'], 'first_seeds': [m[2] for m in meta[:5]],
                            'components': COMPONENTS, 'status_counts': {k: agg[k] for k in ('ok', 'violation', 'infra')}, 'reported': reported},
